@@ -5,6 +5,7 @@ from __future__ import annotations
 import copy
 
 from hypothesis import strategies as st
+from vf.gen.perm import permutations
 
 from vf.common.core import Violation, check, guard, must_raise, h64
 from vf.common import be
@@ -32,7 +33,7 @@ SWAPS = st.one_of(
 )
 DEAL = st.one_of(
     st.builds(deal_from, st.integers(0, 3), SWAPS),
-    st.permutations(list(range(52))).map(lambda perm: [perm.index(c) // 13 for c in range(52)]),
+    permutations(list(range(52))).map(lambda perm: [perm.index(c) // 13 for c in range(52)]),
 )
 # a play choice: (follow?, index)
 PLAYS = st.lists(st.tuples(st.sampled_from([True, True, True, True, True, False]), st.integers(0, 12)),
